@@ -1,7 +1,9 @@
 #!/usr/bin/env python
-"""Regenerates seeded/RESULTS.md from the meta.json files (and, if given, a log of runs of the pre-strengthening checks).
+"""Regenerates seeded/RESULTS.md from the meta.json files.
 
-usage: tools/seeded_results.py [<oldchecks.log>]"""
+usage: tools/seeded_results.py [TAG:COMMIT:LOG ...]
+Each TAG:COMMIT:LOG names a log of runs of an *earlier* verif commit against the changes of one round (TAG H = round 2,
+R = round 3; lines `OLD C09/A C09 exit=1 signature: ...;`); the outcome is stored in meta.json as `before_strengthening`."""
 import json
 import os
 import re
@@ -13,11 +15,13 @@ BASE = os.path.join(VERIF, "seeded")
 
 def main():
     old = {}
-    if len(sys.argv) > 1:
-        for line in open(sys.argv[1]):
+    for spec in sys.argv[1:]:
+        tag, commit, log = spec.split(":", 2)
+        for line in open(log):
             m = re.match(r"OLD (C\d+)/([AB]) (C\d+) exit=(\d+)\s*(.*)", line.strip())
             if m:
-                old.setdefault(f"{m.group(1)}-H{m.group(2)}", {})[m.group(3)] = {"quick_exit": int(m.group(4)), "signatures": [s.strip() for s in re.findall(r"signature: ([^;]+);", m.group(5))]}
+                d = old.setdefault(f"{m.group(1)}-{tag}{m.group(2)}", {"commit": commit, "results": {}})
+                d["results"][m.group(3)] = {"quick_exit": int(m.group(4)), "signatures": [s.strip() for s in re.findall(r"signature: ([^;]+);", m.group(5))]}
     rows = []
     for name in sorted(os.listdir(BASE)):
         mp = os.path.join(BASE, name, "meta.json")
@@ -25,7 +29,8 @@ def main():
             continue
         m = json.load(open(mp))
         if name in old:
-            m["before_strengthening"] = {"verif_commit": "dc8f71d", "results": old[name], "caught": sorted(c for c, r in old[name].items() if r["quick_exit"] == 1)}
+            r = old[name]["results"]
+            m["before_strengthening"] = {"verif_commit": old[name]["commit"], "results": r, "caught": sorted(c for c, x in r.items() if x["quick_exit"] == 1)}
             json.dump(m, open(mp, "w"), indent=1)
         sigs = "; ".join(f"{c}: {', '.join(r['signatures'][:2])}" for c, r in sorted(m["check_results"].items()) if r["quick_exit"] == 1)
         if "before_strengthening" in m:
@@ -33,40 +38,55 @@ def main():
         else:
             before = "missed" if m.get("strengthening") else "same"
         rows.append((name, m["property"], before, ", ".join(m["caught_by"]) or "MISSED", sigs, m.get("strengthening")))
-    r1 = [r for r in rows if "-H" not in r[0]]
-    r2 = [r for r in rows if "-H" in r[0]]
+    r1 = [r for r in rows if re.search(r"-[AB]$", r[0])]
+    r2 = [r for r in rows if re.search(r"-H[AB]$", r[0])]
+    r3 = [r for r in rows if re.search(r"-R[AB]$", r[0])]
     with open(os.path.join(BASE, "RESULTS.md"), "w") as f:
         f.write(
             "# Seeded changes: which checks catch which\n\n"
-            "Each directory `seeded/<property>-<A|B>/` (first round) or `seeded/<property>-H<A|B>/` (second, \"hard\" round) holds a change to\n"
-            "joholl/tpmstream written by an independent sub-agent that was given only the text of one property and its own scratch git\n"
-            "worktree of /repo (nothing from /verif): `patch.diff`, the agent's demonstration `demo.py` (exits 1 with the change, 0 without),\n"
-            "its `notes.md` (what was changed and what is needed for it to manifest) and `meta.json` (property, how it was confirmed, which\n"
-            "checks were run, their exit codes and signatures, and - where a change was missed at first - what was strengthened).\n\n"
+            "Each directory `seeded/<property>-<A|B>/` (round 1), `seeded/<property>-H<A|B>/` (round 2) or `seeded/<property>-R<A|B>/` (round 3)\n"
+            "holds a change to joholl/tpmstream written by an independent sub-agent that was given only the text of one property and its own\n"
+            "scratch git worktree of /repo (nothing from /verif): `patch.diff`, the agent's demonstration `demo.py` (exits 1 with the change,\n"
+            "0 without), its `notes.md` (what was changed and what is needed for it to manifest) and `meta.json` (property, how it was\n"
+            "confirmed, which checks were run, their exit codes and signatures, and - where a change was missed at first - what was strengthened).\n\n"
             "Every change below was confirmed with `tools/verify_seed.sh` in a scratch copy: the patch applies, the repository's own suite\n"
             "still gives 14051 passed, the demonstration fails with the change and passes without it. None of them was ever applied to /repo.\n"
-            "`tools/eval_seeded.sh` re-runs the quick checks against every kept change.\n\n"
+            "`tools/eval_seeded.sh` re-runs the quick checks against every kept change (last full run: all changes caught, no harness error).\n"
+            "A change counts as caught when any check reports it; several are reported by a neighbouring property's check (same root cause).\n\n"
         )
         f.write(f"## Round 1 - plausible slips that need something specific to manifest ({len(r1)} changes, 2 per property)\n\n")
         missed1 = [r for r in r1 if r[2] == "missed"]
         f.write(f"{len(r1) - len(missed1)} of {len(r1)} were caught by the quick tier as it was; {len(missed1)} were missed and led to strengthening, after which all are caught:\n\n")
         for r in missed1:
             f.write(f"* **{r[0]}**: {r[5]}\n")
-        f.write(
-            f"\n## Round 2 - changes designed to evade generated inputs ({len(r2)} changes)\n\n"
-            "The agents of this round were told that generated-input checks had caught every ordinary slip and were asked for changes that only\n"
-            "manifest for narrow input classes, rare shapes and lengths, specific call sequences or rarely used code paths. Column \"before\" is the\n"
-            f"result of the quick checks as they were before this round (verif commit dc8f71d): they caught {sum(1 for r in r2 if r[2] != 'missed')} of {len(r2)}. The misses exposed\n"
-            "real gaps - almost all in the generators, one in an oracle (C05 did not compare the surplus bytes of a superfluous error) - and were\n"
-            f"used to close them; now {sum(1 for r in r2 if r[3] != 'MISSED')} of {len(r2)} are caught by the quick tier (a change counts as caught when any check reports it).\n\n"
-        )
-        for r in r2:
-            if r[5]:
-                f.write(f"* **{r[0]}**: {r[5]}\n")
+        for title, rr, blurb in (
+            (
+                "Round 2 - changes designed to evade generated inputs",
+                r2,
+                "The agents of this round were told that generated-input checks had caught every ordinary slip and were asked for changes that only\n"
+                "manifest for narrow input classes, rare shapes and lengths, specific call sequences or rarely used code paths. \"Before\" = the quick\n"
+                "checks as they were before this round (verif commit dc8f71d).",
+            ),
+            (
+                "Round 3 - same brief, plus the list of ideas already used for the property (to force new root causes)",
+                r3,
+                "\"Before\" = the quick checks after the strengthening of round 2 and before that of round 3 (verif commit 2d86922): a measure of\n"
+                "how far the round-2 strengthening generalises to unseen changes of the same kind.",
+            ),
+        ):
+            if not rr:
+                continue
+            caught_before = sum(1 for r in rr if r[2] != "missed")
+            caught_now = sum(1 for r in rr if r[3] != "MISSED")
+            f.write(f"\n## {title} ({len(rr)} changes)\n\n{blurb}\nCaught before: **{caught_before} of {len(rr)}**; caught now: **{caught_now} of {len(rr)}**. What each miss led to:\n\n")
+            for r in rr:
+                if r[5]:
+                    f.write(f"* **{r[0]}**: {r[5]}\n")
         f.write("\n## All kept changes\n\n| change | property | before strengthening | caught by now (quick tier) | signatures |\n|--------|----------|----------------------|----------------------------|------------|\n")
         for r in rows:
             f.write(f"| {r[0]} | {r[1]} | {r[2]} | {r[3]} | {r[4][:260]} |\n")
-    print(len(r1), len(r2), sum(1 for r in r2 if r[2] != "missed"), sum(1 for r in r2 if r[3] != "MISSED"))
+    for label, rr in (("round1", r1), ("round2", r2), ("round3", r3)):
+        print(label, len(rr), "before:", sum(1 for r in rr if r[2] != "missed"), "now:", sum(1 for r in rr if r[3] != "MISSED"))
 
 
 if __name__ == "__main__":
